@@ -164,6 +164,7 @@ def run_line(inp):
         devspec["sgx"] = plat == "sgx"
         dev = build_device(devspec)
         device = dev.exchange
+    mode_before = dev.s.mode if device is not None else None
     simdev.reset(parse_script(inp.get("script", [])), inp.get("conns", []), device)
     dongle = simdev.connected_dongle(plat)
     pin, pindir = None, None
@@ -245,6 +246,15 @@ def run_line(inp):
             minp["pin"] = inp["pin"]
             minp["gen_pins"] = inp.get("gen_pins", [])
             minp["fs_ok"] = inp.get("fs_ok", [])
+        if inp.get("want_devstate") and device is not None:
+            st = dev.s
+            minp["devstate"] = {
+                "keys": {p: k.hex() for p, k in st.keys.items()},
+                "hashes": {str(sel): h.hex() for sel, h in st.hashes.items()},
+                "difficulty": st.difficulty, "flags": list(st.flags), "checkpoint": st.checkpoint.hex(),
+                "min_difficulty": st.min_difficulty, "network": st.network,
+                "hb_sig": st.hb["sig"].hex(), "hb_msg": st.hb["msg"].hex(), "hb_hash": st.hb["hash"].hex(),
+                "hb_pub": st.hb["pub"].hex(), "mode_before": mode_before, "mode_after": st.mode}
         for k in ("tag",):
             if k in inp:
                 minp[k] = inp[k]
